@@ -13,7 +13,7 @@ LEVEL = 'exploration'
 RULE = ('vespr_layout is wrapped with an icontract postcondition evaluated on EVERY call: one position per node, each a finite '
         '2-vector; no two bonded nodes closer than 1e-6 x the requested bond length; mean bond length == requested bond length '
         '(relative 1e-9). Workload: every connected graph-atlas graph with 2-7 nodes (quick: every 4th, thorough: all 995), '
-        'chains, stars, rings, fused rings, grids and random trees up to 60 nodes, resolver outputs with hydrogens and with '
+        'chains, stars, rings, fused rings, grids and random trees up to 60 nodes, two chains of 100-130 bonds per run (one with side branches), resolver outputs with hydrogens and with '
         'cis/trans annotations (exercises the subgraph rotation); bond lengths {0.3, 1, 1.5, 7} and, less often, {0.002, 40, 250, 1.5e-10 (metres)}; node relabelings (shuffled '
         'integers, sparse integers, strings); a sixth of the graphs laid out a second time after an in-place edit with unchanged atom and bond counts; NumPy global RNG reseeded per call (spring initialisation). distinct = (graph '
         'class, size, relabeling, bond length); non-trivial = at least 3 nodes.')
@@ -143,6 +143,16 @@ def cases(seed, tier, shard, nshards):
         kind, g = synth_graph(rng)
         yield dict(kind=kind, gid=len(g), edges=[list(e) for e in g.edges], nodes=list(g.nodes), how=rng.choice(['same', 'ints', 'sparse', 'str']),
                    bond=rng.choice(BONDS), sub=rng.randrange(10 ** 6), features=[kind])
+    # polymer backbones: chains (one of them with short side branches) whose topological diameter is 100-130 bonds
+    if shard == seed % nshards:
+        for branched in (False, True):
+            n = rng.choice([101, 110, 131])
+            g = nx.path_graph(n)
+            if branched:
+                for k in range(5, n, 9):
+                    g.add_edge(k, len(g))
+            yield dict(kind='long_chain', gid=len(g), edges=[list(e) for e in g.edges], nodes=list(g.nodes), how='same',
+                       bond=rng.choice([1.0, 0.4]), sub=rng.randrange(10 ** 6), features=['chain_of_100plus_bonds'])
     # graphs whose edges carry bond orders, zero-order (virtual) edges included
     from ..gen import mol as M_
     for _ in range(cfg['synth'] // (2 * nshards)):
